@@ -2,6 +2,7 @@ package scen
 
 import (
 	"fmt"
+	"math"
 	"strings"
 
 	erpc "github.com/henrylee2cn/erpc/v6"
@@ -195,6 +196,9 @@ func vetoable(stage string) bool {
 func c09(p Params) func() {
 	late := p.Get("late", "none") // none | left | right
 	kind := p.Get("kind", "call")
+	// result=bad: the handler of route 1 returns a value the body codec cannot encode, so the first attempt to write
+	// the reply fails and the framework answers with an error reply instead (reply stages still at most once)
+	badResult := p.Get("result", "") == "bad"
 	return func() {
 		begin()
 		var trace []string
@@ -252,9 +256,17 @@ func c09(p Params) func() {
 			handlerP = append(handlerP, r)
 			hplug = append(hplug, r)
 		}
+		h1bad := func(ctx erpc.CallCtx, arg *string) (*float64, *erpc.Status) {
+			ran["r1"]++
+			trace = append(trace, fmt.Sprintf("HANDLER#%d", ctx.Seq()))
+			r := math.NaN()
+			return &r, nil
+		}
 		var name1 string
 		if kind == "push" {
 			name1 = sub.RoutePushFunc(p1, hplug...)
+		} else if badResult {
+			name1 = sub.RouteCallFunc(h1bad, hplug...)
 		} else {
 			name1 = sub.RouteCallFunc(h1, hplug...)
 		}
@@ -381,6 +393,25 @@ func c09(p Params) func() {
 		seq1 := int32(1)
 		want, vetoed := expect(chain1, seq1)
 		got := filter(trace)
+		if badResult && !vetoed {
+			// the reply could not be encoded: the post-write stage may be skipped, but no stage fires twice
+			seen := map[string]bool{}
+			for _, t := range got {
+				if seen[t] {
+					vsched.Failf("hook fired twice for one message: %s | %s result=bad\n got: %v", t, ctxt, got)
+				}
+				seen[t] = true
+			}
+			strip := func(tr []string) (out []string) {
+				for _, t := range tr {
+					if !strings.Contains(t, ".postwritereply#") {
+						out = append(out, t)
+					}
+				}
+				return
+			}
+			got, want = strip(got), strip(want)
+		}
 		if strings.Join(got, " ") != strings.Join(want, " ") {
 			vsched.Failf("hook trace differs from the documented order for the route with plugins | %s\n got:  %v\n want: %v", ctxt, got, want)
 		}
@@ -395,8 +426,11 @@ func c09(p Params) func() {
 			if ran["r1"] != 1 {
 				vsched.Failf("handler ran %d times | %s", ran["r1"], ctxt)
 			}
-			if kind == "call" && (!st.OK() || res != "r1") {
+			if kind == "call" && !badResult && (!st.OK() || res != "r1") {
 				vsched.Failf("call failed without veto: %s | %s", world.StatStr(st), ctxt)
+			}
+			if badResult && (st.OK() || erpc.IsConnError(st)) {
+				vsched.Failf("handler result cannot be encoded: caller got %s, want an error reply | %s", world.StatStr(st), ctxt)
 			}
 		}
 		// request 2: the root route must only see the global plugins
